@@ -1,5 +1,5 @@
 """Registry: which stages decide which property (see DESIGN.md section 5)."""
-from checklib import PROPS, make_prop, ES, GS, tlc_only_stage, refstore_stage, session_stage, long_session_stage
+from checklib import PROPS, make_prop, ES, GS, tlc_only_stage, refstore_stage, session_stage, long_session_stage, short_strings_stage
 from tracestages import TE, api_stage
 
 COMMON_ASSUME = [
@@ -66,7 +66,7 @@ GR = "distinct = distinct sentences; non-trivial = the recogniser gives a verdic
 PROPS["C06"] = make_prop("C06", [GS("C06", "C06", "accept"), TE("C06", {"outcome"})],
     "every spelling (blank space at every S, both quote styles, every escape form, shorthand/bracket notation, redundant parentheses, number spellings) within a variation budget of the abstract queries of GrammarUniverse, derived by the grammar machine and judged valid by the recogniser, must be accepted by parse_json_path and by JsonPath::query; " + GR,
     COMMON_ASSUME + ["RFC 9535 ABNF transcribed twice (generator Grammar.tla, recogniser JPParse.tla) and cross-checked by TLC"])
-PROPS["C07"] = make_prop("C07", [GS("C07", "C07", "reject,accept"), TE("C07", {"outcome"})],
+PROPS["C07"] = make_prop("C07", [GS("C07", "C07", "reject,accept"), lambda ev, tier, seed: short_strings_stage(ev, "C07", tier, seed), TE("C07", {"outcome"})],
     "every single-character edit (delete, insert, replace over a 17..27 symbol alphabet, transpose) of the canonical spellings, plus ill-typed / out-of-range abstract queries; the recogniser decides validity; invalid ones must be rejected by parse_json_path and JsonPath::query, valid ones accepted; " + GR,
     COMMON_ASSUME + ["strings the properties do not speak about (unknown function names, blanks inside singular-query brackets, huge number literals) are labelled unscoped and skipped"])
 PROPS["C13"] = make_prop("C13", [GS("C13", "C13", "order,accept"), TE("C13", {"ast"})],
